@@ -662,6 +662,24 @@ fn gen_c17(ctx: &mut Ctx) {
                     verdict = Some("an undecodable line must be a communication error that does not touch the bus".to_string());
                 }
             }
+            if class.ends_with("-then-valid") && steps == 2 {
+                // the line after the bad (or maximum-length) one is a valid frame: the second call forwards it
+                let outs: Vec<&str> = res.split(" | ").next().unwrap_or("").split(" ; ").collect();
+                let write_fails = ws.iter().any(|w| w.starts_with('F') || w == "Z");
+                let (_, rest) = first_line(tape);
+                let (second, _) = first_line(rest);
+                let second_valid = crate::gen::reference_parse(second).starts_with("OK ");
+                if !second_valid {
+                    if outs.len() != 2 || !outs[1].starts_with("COMM fwd=-") {
+                        verdict = Some("an undecodable line must be a communication error that does not touch the bus".to_string());
+                    }
+                } else if outs.len() != 2 || outs[1].ends_with("fwd=-") || !outs[1].contains("fwd=") || (!write_fails && !outs[1].starts_with("OK fwd=")) {
+                    verdict = Some(format!("the valid line after the first one was not forwarded: {:?}", outs));
+                }
+                if class.starts_with("invalid") && !outs[0].starts_with("COMM fwd=-") {
+                    verdict = Some("an undecodable line must be a communication error that does not touch the bus".to_string());
+                }
+            }
             if (class.starts_with("invalid") && !class.ends_with("-then-valid")) || *class == "empty" || *class == "bad-checksum" || *class == "sign-in-hex-pair" {
                 if !res.starts_with("COMM fwd=-") || !res.ends_with("UNC.-.0.cbf29ce484222325") {
                     verdict = Some("an undecodable line must be a communication error that does not touch the bus".to_string());
